@@ -62,6 +62,7 @@ services:
     cpuset: "0,1"
     credential_spec: {file: my-credential-spec.json}
     depends_on: {base: {condition: service_started, restart: true, required: true}}
+    env_file: [{path: ./not-there.env, required: false}]
     deploy:
       mode: replicated
       replicas: 1
